@@ -462,7 +462,7 @@ META = {
     'explanation': "mixed. Proved: the two junction helpers that decide which sample is flushed at the end of which pass - _last_sample_is_turn_of_repeated_sequence "
                    "(find_turns receives the sequence continued by its own repetition; the trailing run of equal values is stepped back completely, loop invariant; the "
                    "answer is membership of that position in the returned turning points) and, for single-point input, _adjust_samples_and_flush_for_hcm_first_run (the first "
-                   "pass gets [0] ++ samples; the flush decision is the conjunction of the question asked about [0] ++ samples and about the samples themselves). "
+                   "pass gets [0] ++ samples; the flush decision is the conjunction of the question asked about [0] ++ samples and about the samples themselves). and _scalar_samples (a multi-point signal is reduced to the first point's history in row order; a single-level Series to the positional array of its values). "
                    "Bounded stand-in (labelled) for the statement itself: the second-pass contract is a whole-history statement over pandas-heavy code; it is evaluated on the "
                    "real detector for every sequence up to the stated length and every single insertion of a non-reversal sample, against an independent periodic rainflow oracle.",
     'not_decided': ["sequences longer than the bound", "multi-point (MultiIndex) branch of the first-run helper", "that the junction rule as implemented yields the periodic count (finding C04-deferred-last-reversal shows it does not always)"],
